@@ -96,6 +96,11 @@ def replay(case, acc):
     c03.check_text(acc, case['text'], (), None, case.get('origin', 'replay'))
 
 
+from harness.shrink import text_shrinker  # noqa: E402
+shrink = text_shrinker(replay, 'text')
+
+
+
 def plan(tier, seed):
     from harness import refgate
     refgate.run(200 if tier == 'quick' else 2000)
